@@ -43,7 +43,13 @@ fn principals(r: &Roles, other_role: &Addr, beneficiary: &Addr) -> Vec<(String, 
             v.push((f.tok(), "former-holder".to_string()));
         }
     }
-    v
+    // everybody who must be refused comes FIRST, while the operation's other preconditions still hold (after the holder's
+    // own successful call a repeated attempt often fails for an unrelated reason — "already set", "window closed" — which
+    // would hide a missing authorisation check); the rightful holder's call comes last
+    let h = r.holder.tok();
+    let (mut refused, rightful): (Vec<_>, Vec<_>) = v.into_iter().partition(|(a, _)| *a != h);
+    refused.extend(rightful);
+    refused
 }
 
 pub fn gen_c06(run: &mut Run, seed: u64, thorough: bool) {
@@ -298,14 +304,15 @@ pub fn gen_c07(run: &mut Run, seed: u64, thorough: bool) {
     let owner0 = Addr::c(OWNER0);
     let stranger = Addr::c(STRANGER);
     let who = |right: &Addr, cp: &Addr, owner: &Addr| -> Vec<(String, &'static str)> {
+        // refused principals first, the rightful one last (see `principals`)
         vec![
-            (right.tok(), "named-address"),
             (cp.tok(), "counterparty"),
             (owner.tok(), "contract-owner"),
             (stranger.tok(), "stranger"),
             ("-".to_string(), "nobody"),
             (format!("{}!", right.tok()), "named-address-other-args"),
             (format!("{},{}", cp.tok(), owner.tok()), "counterparty-and-owner"),
+            (right.tok(), "named-address"),
         ]
     };
     // ---------------- token: with and without allowances ----------------
